@@ -863,7 +863,22 @@ def rule_LK(run: Run) -> RuleResult:
 
 
 # ------------------------------------------------------------------ R-KB
-def unbounded_key_prefix_tests(tree: ast.AST) -> List[tuple]:
+def _named_literal(repo, module, name: str):
+    """The literal a module-level name is bound to once and for all (``_DUNDER = "__"``), else None."""
+    from .interp import _never_mutated
+    if module is None or repo is None:
+        return None
+    if name in module.imports and module.imports[name][0] in repo.modules:
+        src = repo.modules[module.imports[name][0]]
+        return _named_literal(repo, src, module.imports[name][1] or name) if src is not module else None
+    vals = [s_.value for s_ in module.tree.body if isinstance(s_, (ast.Assign, ast.AnnAssign)) and s_.value is not None
+            and any(isinstance(t_, ast.Name) and t_.id == name for t_ in (s_.targets if isinstance(s_, ast.Assign) else [s_.target]))]
+    if len(vals) == 1 and isinstance(vals[0], ast.Constant) and isinstance(vals[0].value, str) and _never_mutated(repo, module, name):
+        return vals[0].value
+    return None
+
+
+def unbounded_key_prefix_tests(tree: ast.AST, repo=None, module=None) -> List[tuple]:
     """(line, text) of every ``a.startswith(b)`` / ``a.endswith(b)`` with a non-constant b that is not closed by the key separator."""
     out = []
     for n in ast.walk(tree):
@@ -871,6 +886,8 @@ def unbounded_key_prefix_tests(tree: ast.AST) -> List[tuple]:
             b = n.args[0]
             if isinstance(b, ast.Constant):
                 continue
+            if isinstance(b, ast.Name) and _named_literal(repo, module, b.id) is not None:
+                continue        # a named literal is a literal
             if isinstance(b, ast.Tuple) and all(isinstance(x, ast.Constant) for x in b.elts):
                 continue
             closed = (isinstance(b, ast.BinOp) and isinstance(b.op, ast.Add) and isinstance(b.right if n.func.attr == "startswith" else b.left, ast.Constant)
@@ -894,7 +911,7 @@ def rule_KB(run: Run) -> RuleResult:
     for m in run.repo.modules.values():
         if m.name.startswith("labrea.mypy"):
             continue
-        hits = unbounded_key_prefix_tests(m.tree)
+        hits = unbounded_key_prefix_tests(m.tree, run.repo, m)
         res.add(f"{m.name}:no prefix test between keys without the separator", not hits, m.relpath, hits[0][0] if hits else 1,
                 "every startswith/endswith tests a literal" if not hits else f"{hits[0][1]} (line {hits[0][0]})", nec)
     return res
@@ -903,6 +920,25 @@ def rule_KB(run: Run) -> RuleResult:
 # ------------------------------------------------------------------ R-KW
 KW_EXEMPT = {("labrea.template.Template.__init__", "template"): "the template text is the constructor's own first argument (public signature); a parameter "
                                                                    "called `template` cannot be given, as documented"}
+
+
+def _only_literal_keywords(run: Run, name: str) -> bool:
+    """Every use of the name in the repository is a call that passes no ``**mapping`` (and there is at least one)."""
+    calls = 0
+    for m in run.repo.modules.values():
+        callfuncs = set()
+        for c in ast.walk(m.tree):
+            if isinstance(c, ast.Call):
+                f = c.func
+                if (isinstance(f, ast.Name) and f.id == name) or (isinstance(f, ast.Attribute) and f.attr == name):
+                    callfuncs.add(id(f))
+                    calls += 1
+                    if any(k.arg is None for k in c.keywords):
+                        return False
+        for x in ast.walk(m.tree):
+            if ((isinstance(x, ast.Name) and x.id == name) or (isinstance(x, ast.Attribute) and x.attr == name)) and isinstance(x.ctx, ast.Load) and id(x) not in callfuncs:
+                return False        # handed on as a value: its callers are out of sight
+    return calls > 0
 
 
 def rule_KW(run: Run) -> RuleResult:
@@ -922,6 +958,10 @@ def rule_KW(run: Run) -> RuleResult:
         if cls is not None and named and not any(ast.unparse(d) == "staticmethod" for d in fn.decorator_list) and a.args and named[0] == a.args[0].arg and not a.posonlyargs:
             named = named[1:]
         capturing = [p for p in named if not p.startswith("__") and (q, p) not in KW_EXEMPT]
+        if capturing and fn.name.startswith("_") and not fn.name.startswith("__") and _only_literal_keywords(run, fn.name):
+            # a private builder whose every call in the repository spells its keywords out: what arrives in ** is
+            # chosen by the library, no user keyword can meet a parameter name
+            capturing = []
         n += 1
         res.add(f"{q}:keeps no keyword beside **{a.kwarg.arg}", not capturing, m.relpath, fn.lineno,
                 f"parameters beside **{a.kwarg.arg}: {named or 'none'}" if not capturing else f"parameter(s) {capturing} capture a user keyword argument of the same name", nec)
@@ -1027,17 +1067,37 @@ def rule_RG(run: Run) -> RuleResult:
                     if r_ and r_[0] == "func" and (r_[1].module is h_.module or r_[1].name.startswith("_")) and r_[1] not in helpers:
                         helpers.append(r_[1])
                         changed_ = True
-    ctx.no_inline = {h_.node.name for h_ in helpers} | {"lift"}
+    # helpers that (transitively) register are followed into; the others are calls that may raise when they hold a raise
+    def _has(h_, pred, seen=None):
+        seen = seen or set()
+        if h_.node.name in seen:
+            return False
+        seen.add(h_.node.name)
+        if pred(h_.node):
+            return True
+        for c_ in astu.calls_in(h_.node):
+            if isinstance(c_.func, ast.Name):
+                for g_ in helpers:
+                    if g_.node.name == c_.func.id and _has(g_, pred, seen):
+                        return True
+        return False
+    registering = {h_.node.name for h_ in helpers if _has(h_, lambda n_: any(astu.short_name(c) == "register" for c in astu.calls_in(n_)))}
+    raising = {h_.node.name for h_ in helpers if _has(h_, lambda n_: any(isinstance(x, ast.Raise) for x in ast.walk(n_)))}
+    ctx.no_inline = ({h_.node.name for h_ in helpers} - registering) | {"lift"}
     ps = analyse_method(ctx, im, "__init__")
     res.count("paths", len(ps))
     n_reg = 0
     bad = None
+    reg_events = {}
     for p in ps:
         idx = [i for i, e in enumerate(p.events) if e.kind == "call" and e.text.split(".")[-1] in ("register", "register()")]
         if not idx:
             continue
         n_reg += 1
-        later = [e for e in p.events[idx[0] + 1:] if e.kind == "raise"]
+        for i in idx:
+            e = p.events[i]
+            reg_events.setdefault((e.file, e.line), e)
+        later = [e for e in p.events[idx[0] + 1:] if e.kind == "raise" or (e.kind == "call" and e.text.split(".")[-1] in raising)]
         if later and bad is None:
             bad = (p.events[idx[0]].line, later[0].line, later[0].text)
     if n_reg == 0:
@@ -1045,20 +1105,18 @@ def rule_RG(run: Run) -> RuleResult:
     res.add("labrea.interface.Implementation.__init__:no raise after a registration", bad is None, im.module.relpath, fn.lineno,
             f"{n_reg} paths register; none raises afterwards" if bad is None else
             f"register at line {bad[0]} can be followed by `raise {bad[2][:60]}` at line {bad[1]} (a later member is found abstract after an earlier one was registered)", nec)
-    # every member is registered under every alias
-    regs = [c for c in astu.calls_in(fn) if astu.short_name(c) == "register"]
-    ok = False
-    for c in regs:
-        pm = astu.parent_map(fn)
-        cur = c
-        loops = []
-        while id(cur) in pm:
-            cur = pm[id(cur)]
-            if isinstance(cur, ast.For):
-                loops.append(ast.unparse(cur.iter))
-        joined = " ".join(loops)
-        ok = "aliases" in joined and ("member_list" in joined or "members" in joined)
-    res.add("labrea.interface.Implementation.__init__:every member registered under every alias", ok, im.module.relpath, fn.lineno, "nested loops over the member list and the aliases", nec)
+    # every member is registered under every alias: the registration is issued on an element of a member list (the lists
+    # of the collected members) under an element of the aliases, both iterated whole
+    ok = bool(reg_events)
+    how = []
+    for (fl_, ln_), e in sorted(reg_events.items()):
+        tk = e.target.key() if e.target is not None else ""
+        ak = e.args[0].key() if e.args else ""
+        good = tk.startswith("elem(elem(") and ak == "elem(aliases)" and not getattr(e.args[0], "partial", False)
+        how.append(f"{tk[:50]}.register({ak[:30]}, …)")
+        ok = ok and good
+    res.add("labrea.interface.Implementation.__init__:every member registered under every alias", ok, im.module.relpath, fn.lineno,
+            "; ".join(how) or "no registration", nec)
     # every interface's member of a name is collected (multi-interface implementations)
     bodies_ = [h_.node for h_ in helpers] + [fn]
     gm = next((h_ for h_ in helpers if any(isinstance(c, ast.Call) and isinstance(c.func, ast.Attribute) and c.func.attr in ("append", "setdefault") for c in ast.walk(h_.node))
@@ -1169,11 +1227,8 @@ def rule_ID(run: Run) -> RuleResult:
     ok = ok and n_set >= 3
     res.add("labrea.interface.Interface.__init__:member-kind chain exhaustive, every branch sets the dispatch", ok, f, fn.lineno,
             why or f"{len(ips)} paths; every processed member reaches dataset(…, dispatch=dispatch) / set_dispatch(dispatch)", nec)
-    # the dispatch handed to Interface() is the one given to @interface
-    w = repo.functions.get("labrea.interface.interface")
-    ok = w is not None and any(astu.short_name(c) == "Interface" and c.args and ast.unparse(c.args[-1]) == "dispatch" for c in astu.calls_in(w.node))
-    res.add("labrea.interface.interface:passes its dispatch to Interface(...)", ok, f, w.node.lineno if w else 0, "", nec)
-    # a dispatch given as a string is an option key: it becomes Option(key) (interface decorator and dataset factory alike)
+    # the dispatch handed to Interface() is the one given to @interface; given as a string it is an option key and becomes
+    # Option(key).  Read off the object ``interface(dispatch)(cls)`` builds, whatever locals and helpers are on the way.
     def str_dispatch(paths, get_term, label, relpath, line):
         ok_, seen_, why_ = True, set(), ""
         for p in paths:
@@ -1189,9 +1244,32 @@ def rule_ID(run: Run) -> RuleResult:
             if not is_str and t.key() != "dispatch":
                 ok_, why_ = False, f"a non-string dispatch becomes {t.key()[:60]}"
         res.add(f"{label}:a string dispatch becomes Option(key)", ok_ and seen_ == {True, False}, relpath, line, why_ or "Option(dispatch) if isinstance(dispatch, str)", nec)
+    w = repo.functions.get("labrea.interface.interface")
     if w is not None:
-        str_dispatch(analyse_function(Ctx(repo), w.module, w.node), lambda p: (getattr(p.ret, "frame", None) or {}).get("dispatch") if isinstance(p.ret, Fn) else None,
-                     "labrea.interface.interface", f, w.node.lineno)
+        wp = [a.arg for a in w.node.args.posonlyargs + w.node.args.args]
+        probe = ast.parse(f"def __probe__({wp[0] if wp else 'dispatch'}, cls):\n    return interface({wp[0] if wp else 'dispatch'})(cls)").body[0]
+        for n_ in ast.walk(probe):
+            if hasattr(n_, "lineno"):
+                n_.lineno = n_.end_lineno = w.node.lineno
+        iparams = [a.arg for a in fn.args.posonlyargs + fn.args.args][1:]
+        di = iparams.index("dispatch") if "dispatch" in iparams else len(iparams) - 1
+
+        def handed(p):
+            r = p.ret
+            if isinstance(r, Sym) and r.head == "new:Interface" and len(r.args) > di:
+                a_ = r.args[di]
+                return a_.args[0] if isinstance(a_, Sym) and a_.head == "kw:dispatch" and a_.args else a_
+            return None
+        pps = analyse_function(Ctx(repo), w.module, probe)
+        rets = [p for p in pps if p.status == "ret"]
+        ok = bool(rets) and all(handed(p) is not None and "dispatch" in handed(p).key() for p in rets)
+        res.add("labrea.interface.interface:passes its dispatch to Interface(...)", ok, f, w.node.lineno,
+                "; ".join(sorted({(handed(p).key()[:60] if handed(p) is not None else "no Interface built") for p in rets})), nec)
+        if wp and wp[0] != "dispatch":
+            raise AnalysisError("R-ID: the parameter of interface() is no longer called dispatch (public keyword)")
+        str_dispatch(pps, handed, "labrea.interface.interface", f, w.node.lineno)
+    else:
+        res.add("labrea.interface.interface:passes its dispatch to Interface(...)", False, f, 0, "interface() not found", nec)
     df = repo.cls("DatasetFactory")
     dinit = df.methods.get("__init__")
     if dinit is not None:
@@ -1422,7 +1500,8 @@ def rule_CD(run: Run) -> RuleResult:
         # likewise a private module-level function (a context manager written as a generator, a small helper) that only one
         # registered fall-through point refers to
         for q, fi in repo.functions.items():
-            if q in ft_of or not fi.name.startswith("_") or fi.module.name.startswith("labrea.mypy"):
+            private_ = fi.name.startswith("_") or fi.module.name.rsplit(".", 1)[-1].startswith("_")     # (a private module's functions are private)
+            if q in ft_of or not private_ or fi.module.name.startswith("labrea.mypy"):
                 continue
             users = set()
             for m2, cls2, fn2, q2 in iter_functions(repo):
